@@ -279,6 +279,7 @@ func init() {
 			{"loop-accumulator", "a boolean that summarises a loop (some element needs X / all elements satisfy Y) and is read after it is accumulated monotonically - set to a constant, combined with its previous value, assigned under a test of itself, or followed by leaving the loop - never overwritten by the value computed for the current element only", func(c *Ctx) { ruleLoopAccumulator(c, "pkg/core/mpt") }},
 			{"dead-update", "no struct-typed local is assigned and field-updated without ever being read, passed on or returned (a modified copy that is lost while the stale original goes on being used)", func(c *Ctx) { ruleDeadUpdate(c, "pkg/core/mpt") }},
 			{"check-all-loop", "a loop that rejects on a property of each element with an error return is not left early with a break (the elements after it would escape the check)", func(c *Ctx) { ruleCheckAllLoop(c, "pkg/core/mpt") }},
+			{"copy-complete", "Clone of every trie node kind starts from the whole node or names every field (a restored node that lost a field hashes differently)", func(c *Ctx) { ruleCopyComplete(c, 4, "pkg/core/mpt") }},
 			{"proof-key", "VerifyProof walks from NewHashNode(root) over a store of its own in strict mode, and stores every proof element under the double-SHA256 of that very element", ruleProofKey},
 			{"node-switch", "type switches dispatching over trie node kinds cover all five kinds or fail in their default arm", ruleNodeSwitch},
 			{"append-alias", "no append(node.field, ...) in package mpt whose result leaves the field (it would write into the spare capacity a node key shares with the path/batch array it was sliced from)", ruleAppendAlias},
@@ -373,6 +374,8 @@ func init() {
 			{"attr-budget", "the transaction decoder limits the attribute count by MaxAttributes less the signers count", ruleAttrBudget},
 			{"context-construction", "every place of the node that builds a value whose wire shape depends on a context field (block.Header.StateRootEnabled, the consensus state-root flags) sets that field, in the literal or by an assignment in the same function (one tabled exception)", ruleContextConstruction},
 			{"hash-canonical", "every cached identity (hash/size of transaction, header, extensible, notary request) is computed from the node's own encoding, or from received bytes only if the length decoder rejects non-minimal encodings", ruleHashCanonical},
+			{"copy-complete", "a Copy method of a wire type (transaction parts, P2P payloads) that builds its result field by field names every field of the struct, or the field is tabled as a lazily recomputed cache: a copy that is encoded must give the bytes of the original", func(c *Ctx) { ruleCopyComplete(c, 12, "pkg/core/transaction", "pkg/network/payload") }},
+			{"codec-fields", "for every struct type with both halves of a codec family (binary, JSON, stack item) the fields the encoder reads and the fields the decoder restores are the same set, except for tabled asymmetries (cached identities, context carried by the enclosing message): a field written out and never restored is lost by a round trip", ruleCodecFields},
 			{"codec-symmetry", "for every type with EncodeBinary and DecodeBinary the sequences of wire primitives on the writer/reader agree token by token when both are straight-line; otherwise the sets of primitive kinds agree", ruleCodecSymmetry},
 			{"codec-guards", "where the encoder and the decoder of one type both guard wire operations by comparing the same field with constants, the two sets of constants agree", ruleCodecGuards},
 			{"decode-context", "a decoder of a type whose wire shape depends on a context field (read, never assigned by its DecodeBinary: the consensus state-root flag) hands the context on to every nested value of a context-dependent type it creates", ruleDecodeContext},
